@@ -41,6 +41,7 @@ BS = "net::codec::BobState"
 EXPLANATION += ' Round 9: (R9) declined-session cells of net::handle_connection: whatever closing step fails, the error of a request we declined is the Abort or names no document; (R11) = C12.R4: the event fan-out that runs inside the store actor does not panic on closed subscribers.'
 EXPLANATION += ' (R12, round 10) LiveActor::on_sync_finished evaluated on session result x finish() answer x subscribers x pending content: the peer is registered as useful exactly once after a successful session, never after a failed or declined one.'
 EXPLANATION += ' (R13, round 11) every completion of our dial but the AlreadySyncing decline reaches on_sync_finished (the dial-completion cells of C11.R3).'
+EXPLANATION += " (R14, round 13) = C03.R2's validate_empty table: a malformed entry whose shape the store's readers assert is refused at the door."
 
 
 def _mk_frame(E, f, fr, i):
@@ -556,6 +557,14 @@ def r13(ctx):
     from . import C11
     ctx.share("C10.R13", C11.r3, "C11.R3", keep=lambda k: "dial-completion-is-reported" in k, floor=5)
 
+def r14(ctx):
+    """"whatever sequence of frames a remote peer sends ... they never panic": an entry whose shape the store's readers assert
+    (a record of length 0 has the empty hash: Record::new debug-asserts it when the row is read back) must not get in - the
+    validate_empty table of C03.R2 (C10-13: a signed entry with a non-empty hash and length 0 was admitted, the store actor
+    panicked at the next scan)"""
+    from . import C03
+    ctx.share("C10.R14", C03.r2, "C03.R2", keep=lambda k: "validate_empty" in k, floor=1)
+
 def run(ctx):
     ctx.run_rule("C10.R1", r1)
     ctx.run_rule("C10.R2", r2)
@@ -569,3 +578,4 @@ def run(ctx):
     ctx.run_rule("C10.R11", r11)
     ctx.run_rule("C10.R12", r12)
     ctx.run_rule("C10.R13", r13)
+    ctx.run_rule("C10.R14", r14)
